@@ -74,8 +74,8 @@ def csv_case(draw, tier):
     t1 = [draw(hdrs)] + draw(rows)
     nappend = draw(st.sampled_from([0, 0, 1, 2]))
     c = {"encoding": enc, "quoting": quoting, "table": t1, "appends": [[draw(hdrs)] + draw(rows) for _ in range(nappend)],
-         "tsv": draw(st.booleans()), "kind": draw(st.sampled_from(KINDS)), "write_header": draw(st.booleans()),
-         "append_header": draw(st.booleans()), "read_header": draw(st.sampled_from([None, None, ["h1", "h2"]]))}
+         "tsv": draw(st.booleans()), "kind": draw(st.sampled_from(KINDS)), "write_header": draw(st.sampled_from([True, False, None])),
+         "append_header": draw(st.sampled_from([True, False, None])), "read_header": draw(st.sampled_from([None, None, ["h1", "h2"]]))}
     if not c["tsv"] or draw(st.booleans()):
         c["delimiter"] = draw(st.sampled_from([",", ";", "\t", "|", " "]))
     if draw(st.booleans()):
@@ -105,7 +105,11 @@ def check_csv(case, ctx):
     if kw.get("delimiter") == kw.get("quotechar", '"') or (kw.get("delimiter") == " " and False):
         return None
     t1, appends = case["table"], case["appends"]
-    wh, ah = case["write_header"], case["append_header"]
+    # None = argument omitted: to* writes the header by default, append* does not
+    whkw = {} if case["write_header"] is None else {"write_header": case["write_header"]}
+    ahkw = {} if case["append_header"] is None else {"write_header": case["append_header"]}
+    wh = True if case["write_header"] is None else case["write_header"]
+    ah = False if case["append_header"] is None else case["append_header"]
     full = (t1 if wh else t1[1:]) + [r for t in appends for r in (t if ah else t[1:])]
     ctlkw = dict(kw)
     ctlkw.setdefault("delimiter", "\t" if case["tsv"] else ",")
@@ -141,9 +145,9 @@ def check_csv(case, ctx):
     target = _target(kind, tmp, "t.csv")
     tofn, appfn, fromfn = (etl.totsv, etl.appendtsv, etl.fromtsv) if case["tsv"] else (etl.tocsv, etl.appendcsv, etl.fromcsv)
     try:
-        tofn(codec.snapshot(t1), target, encoding=enc, write_header=wh, **kw)
+        tofn(codec.snapshot(t1), target, encoding=enc, **dict(kw, **whkw))
         for t in appends:
-            appfn(codec.snapshot(t), target, encoding=enc, write_header=ah, **kw)
+            appfn(codec.snapshot(t), target, encoding=enc, **dict(kw, **ahkw))
         rkw = dict(kw)
         if case["read_header"]:
             rkw["header"] = case["read_header"]
@@ -177,14 +181,18 @@ def pickle_case(draw, tier):
     hdrs = st.lists(st.one_of(st.text(max_size=3), st.integers(0, 3)), max_size=3)
     rows = st.lists(st.lists(PCELL, max_size=4), max_size=4)
     return {"table": [draw(hdrs)] + draw(rows), "appends": [[draw(hdrs)] + draw(rows) for _ in range(draw(st.sampled_from([0, 1, 2])))],
-            "kind": draw(st.sampled_from(KINDS)), "write_header": draw(st.booleans()), "append_header": draw(st.booleans()),
+            "kind": draw(st.sampled_from(KINDS)), "write_header": draw(st.sampled_from([True, False, None])),
+            "append_header": draw(st.sampled_from([True, False, None])),
             "protocol": draw(st.sampled_from([-1, 0, 2, 4])), "rowtype": draw(st.sampled_from(["list", "tuple"]))}
 
 
 def check_pickle(case, ctx):
     kind = case["kind"]
     t1, appends = case["table"], case["appends"]
-    wh, ah = case["write_header"], case["append_header"]
+    whkw = {} if case["write_header"] is None else {"write_header": case["write_header"]}
+    ahkw = {} if case["append_header"] is None else {"write_header": case["append_header"]}
+    wh = True if case["write_header"] is None else case["write_header"]
+    ah = False if case["append_header"] is None else case["append_header"]
     conv = tuple if case["rowtype"] == "tuple" else list
     exp = [tuple(r) for r in (t1 if wh else t1[1:])] + [tuple(r) for t in appends for r in (t if ah else t[1:])]
     ctx.label("kind:" + kind, "appends:%d" % len(appends), "protocol:%d" % case["protocol"])
@@ -192,9 +200,9 @@ def check_pickle(case, ctx):
     tmp = ctx.tmpdir()
     target = _target(kind, tmp, "t.p")
     try:
-        etl.topickle([conv(r) for r in codec.snapshot(t1)], target, protocol=case["protocol"], write_header=wh)
+        etl.topickle([conv(r) for r in codec.snapshot(t1)], target, protocol=case["protocol"], **whkw)
         for t in appends:
-            etl.appendpickle([conv(r) for r in codec.snapshot(t)], target, protocol=case["protocol"], write_header=ah)
+            etl.appendpickle([conv(r) for r in codec.snapshot(t)], target, protocol=case["protocol"], **ahkw)
         got = [r for r in etl.frompickle(_reader(kind, target))]
     except Exception as ex:
         return exc_fail("pickle/%s" % kind, ex)
